@@ -57,8 +57,12 @@ Definition slot_of (g : geom) (x : item) : option N :=
   | GRange lo hi _ => if (lo <=? fst x) && (fst x <=? hi) then Some (fst x) else None
   | GPfx base plen count shift =>
       if snd x =? plen then
-        let i := (((fst x + two128 - base) mod two128) / 2 ^ shift) mod two64 in
-        if i <? count then Some i else None
+        let d := (fst x + two128 - base) mod two128 in
+        (* the address must lie inside the pool network (fix c2652db in /repo), then the 64-bit index *)
+        if d <? count * 2 ^ shift then
+          let i := (d / 2 ^ shift) mod two64 in
+          if i <? count then Some i else None
+        else None
       else None
   end.
 (* the address a slot stands for: identity / PrefixAllocator.indexToIPNet *)
@@ -128,9 +132,19 @@ Definition pool_reserve (p : pool) (sl s : N) : option pool :=
 (* Release.  R2 (Repaired): only the owner's release frees the lease. *)
 Definition owner_ok (v : variant) (o s : N) : bool :=
   if d2 v then true else o =? s.
+(* only an address the pool may hand out goes back on the free list (PoolAllocator.assignable, fix d00d766
+   in /repo): never an excluded or out-of-range address that a Reserve recorded *)
+Definition assignable (g : geom) (sl : N) : bool :=
+  match g with
+  | GRange lo hi ex => (lo <=? sl) && (sl <=? hi) && negb (memN sl ex)
+  | GPfx _ _ _ _ => true
+  end.
 Definition pool_release (v : variant) (p : pool) (sl s : N) : pool :=
   match lease_of p sl with
-  | Some o => if owner_ok v o s then with_lf p (unassoc sl (p_leases p)) (p_free p ++ [sl]) else p
+  | Some o => if owner_ok v o s
+              then with_lf p (unassoc sl (p_leases p))
+                           (if assignable (p_geom p) sl then p_free p ++ [sl] else p_free p)
+              else p
   | None => p
   end.
 
@@ -419,7 +433,7 @@ Definition step_pi (st : state) (s : sess) (a : option N) : list (state * out) :
           if usable && negb (x =? t) then pi_res st s (s_a4 s) (PiNak t)
           else if x =? 0 then pi_res st s (s_a4 s) PiRej
           else pi_res st s (Some x) (PiAck (Some x))
-      | None => pi_res st s None (PiAck None)
+      | None => pi_res st s (s_a4 s) (PiAck None)   (* no address option: the assigned address stays (fix 95b0af2) *)
       end
   end.
 
